@@ -104,7 +104,7 @@ def generate(rng, tier, idx):
              'header': rng.random() < 0.3, 'list_quirks': None, 'wal': rng.random() < 0.3, 'df_variety': rng.random() < 0.4}
     if rng.random() < 0.3:
         world['list_quirks'] = {'shared': rng.random() < 0.5, 'ragged': rng.random() < 0.5, 'none_cell': rng.random() < 0.5, 'ragged_join': rng.random() < 0.5,
-                                'list_cells': rng.random() < 0.3}
+                                'list_cells': rng.random() < 0.3, 'tuple_rows': rng.random() < 0.3}
     nops = rng.choice([1, 2, 2, 3, 3, 4, 5, 6])
     ops = []
     for _ in range(nops):
@@ -154,6 +154,8 @@ def sha(path):
 def deep(x):
     if isinstance(x, list):
         return [deep(v) for v in x]
+    if isinstance(x, tuple):
+        return tuple(deep(v) for v in x)
     return x
 
 
@@ -185,10 +187,14 @@ class World(object):
                 for r in self.A:
                     r[-1] = [r[0], 'w']
                 self.has_list_cells = True
+            if q.get('tuple_rows'):
+                # records that are tuples (cursor.fetchall(), zip(...)): the containers themselves must be left alone too
+                self.A = [tuple(r) if i % 2 == 0 else r for i, r in enumerate(self.A)]
+                self.B = [tuple(r) for r in self.B]
             if q.get('ragged_join') and self.B:
                 self.B[0] = self.B[0][:2]
                 if len(self.B) > 1:
-                    self.B[-1] = self.B[-1] + ['w']
+                    self.B[-1] = type(self.B[-1])(list(self.B[-1]) + ['w'])
         self.header_snap = list(self.header) if self.header else None
         self.jheader_snap = list(self.jheader) if self.jheader else None
         self.A_snap = deep(self.A)
@@ -280,9 +286,9 @@ class World(object):
     # ---- invariants ----
     def check(self, op, tracker, produced):
         """Returns (oracle, detail) for the first broken invariant, else None."""
-        if self.A != self.A_snap or [id(r) for r in self.A] != self.A_ids:
+        if self.A != self.A_snap or [id(r) for r in self.A] != self.A_ids or [type(r) for r in self.A] != [type(r) for r in self.A_snap]:
             return ('list_mutated', {'table': 'A', 'now': self.A, 'before': self.A_snap})
-        if self.B != self.B_snap or [id(r) for r in self.B] != self.B_ids:
+        if self.B != self.B_snap or [id(r) for r in self.B] != self.B_ids or [type(r) for r in self.B] != [type(r) for r in self.B_snap]:
             return ('list_mutated', {'table': 'B', 'now': self.B, 'before': self.B_snap})
         if self.header != self.header_snap or self.jheader != self.jheader_snap:
             return ('list_mutated', {'table': 'column names', 'now': [self.header, self.jheader]})
@@ -290,7 +296,8 @@ class World(object):
         if out_rows is not None:
             src = self.A + self.B
             for r in out_rows:
-                if any(r is s for s in src):
+                # (an immutable tuple row handed through is no way to reach the source; only mutable rows count)
+                if isinstance(r, list) and any(r is s for s in src):
                     return ('list_alias', {'row': r})
             for r in out_rows:
                 if isinstance(r, list):
@@ -344,6 +351,8 @@ class World(object):
         if js is not None:
             if js.get('aliased'):
                 return ('js_alias', {'rows': js.get('rows')})
+            if js.get('row_keys_unchanged') is False:
+                return ('js_mutated', {'table': 'row objects (own properties added or removed)'})
             if js.get('headers_unchanged') is False:
                 return ('js_mutated', {'table': 'column names', 'after': js.get('headers_after')})
             if js.get('input_unchanged') is False:
